@@ -67,20 +67,20 @@ def subpixel_pcc(
             )
         )
 
-        _lshift = (shifts + _max_shifts) * upsample_factor
-        _rshift = (_max_shifts - shifts) * upsample_factor
-        power = crop_by_max_shifts(
-            power, _lshift.astype(np.int32), _rshift.astype(np.int32), backend
-        )
+        # The upsampled region is not FFT-ordered: index ``dftshift`` is the current
+        # shift estimate. Restrict it to the samples inside +-max_shifts.
+        _lshift = ((shifts + _max_shifts) * upsample_factor).astype(np.int32)
+        _rshift = ((_max_shifts - shifts) * upsample_factor).astype(np.int32)
+        _start = np.maximum(int(dftshift) - _lshift, 0)
+        _stop = np.minimum(int(dftshift) + _rshift + 1, upsampled_region_size)
+        power = power[tuple(slice(int(s0), int(s1)) for s0, s1 in zip(_start, _stop))]
 
-        maxima = (
-            backend.asnumpy(
-                backend.unravel_index(backend.argmax(power), power.shape)
-            ).astype(np.float32)
-            - dftshift
+        imax = backend.asnumpy(
+            backend.unravel_index(backend.argmax(power), power.shape)
         )
+        maxima = (imax + _start).astype(np.float32) - dftshift
         shifts = shifts + maxima / upsample_factor
-        pcc = math.sqrt(backend.asnumpy(power[tuple(int(round(m)) for m in maxima)]))
+        pcc = math.sqrt(backend.asnumpy(power[tuple(int(i) for i in imax)]))
     else:
         pcc = math.sqrt(backend.asnumpy(power[tuple(maxima)]))
     return shifts, pcc
